@@ -1,5 +1,66 @@
 package props
 
-import "os"
+import (
+	"bytes"
+	"fmt"
+	"os"
+	"os/exec"
+	"strconv"
+	"strings"
+	"syscall"
+	"time"
+)
 
 func removeFile(p string) { os.Remove(p) }
+
+// cpuTicks returns utime+stime of a process (clock ticks), -1 if it is gone.
+func cpuTicks(pid int) int64 {
+	b, err := os.ReadFile(fmt.Sprintf("/proc/%d/stat", pid))
+	if err != nil {
+		return -1
+	}
+	s := string(b)
+	i := strings.LastIndexByte(s, ')')
+	f := strings.Fields(s[i+1:])
+	if len(f) < 13 {
+		return -1
+	}
+	u, _ := strconv.ParseInt(f[11], 10, 64)
+	k, _ := strconv.ParseInt(f[12], 10, 64)
+	return u + k
+}
+
+// runChild runs a command that is expected to terminate on its own. A child that is still there after a generous
+// grace period AND has not consumed any CPU time between two looks one second apart is blocked for good: it is
+// killed and reported as hung (state-based verdict; the grace period only bounds how long we look).
+func runChild(cmd *exec.Cmd) (out []byte, err error, hung bool) {
+	var buf bytes.Buffer
+	cmd.Stdout, cmd.Stderr = &buf, &buf
+	cmd.SysProcAttr = &syscall.SysProcAttr{Pdeathsig: syscall.SIGKILL}
+	if err := cmd.Start(); err != nil {
+		return nil, err, false
+	}
+	done := make(chan error, 1)
+	go func() { done <- cmd.Wait() }()
+	grace := 15 * time.Second
+	for {
+		select {
+		case err := <-done:
+			return buf.Bytes(), err, false
+		case <-time.After(grace):
+			a := cpuTicks(cmd.Process.Pid)
+			select {
+			case err := <-done:
+				return buf.Bytes(), err, false
+			case <-time.After(time.Second):
+			}
+			b := cpuTicks(cmd.Process.Pid)
+			if a >= 0 && a == b {
+				cmd.Process.Kill()
+				<-done
+				return buf.Bytes(), fmt.Errorf("blocked"), true
+			}
+			grace = 5 * time.Second
+		}
+	}
+}
